@@ -454,7 +454,7 @@ def check_verify_entry(prog, chk, rule_id):
     from ksirules.model import lvalue_key, strip
     fn = prog.fn("KSI_Signature_verifyWithPolicy", "signature_helper.c")
     sp, hp, lp, pp, cp = [p["n"] for p in fn.params]
-    for ctxkind, hsh, level in itertools.product(("none", "empty", "own-hash"), (0, 1), (0, 7)):
+    for ctxkind, hsh, level in itertools.product(("none", "empty", "own-hash", "other-signature"), (0, 1), (0, 7)):
         seen = {}
 
         def verify(I, p, node, args, seen=seen):
@@ -479,7 +479,9 @@ def check_verify_entry(prog, chk, rule_id):
             return 0
         inputs = {sp: Ptr("SIG"), hp: Ptr("DOC") if hsh else 0, lp: level, pp: Ptr("POL"), cp: 0 if ctxkind == "none" else Ptr("VC"), "SIG->ctx": Ptr("ctx"),
                   "RES->finalResult.resultCode": prog.const("KSI_VER_RES_OK"),
-                  "VC->documentHash": Ptr("VCHASH") if ctxkind == "own-hash" else 0, "VC->docAggrLevel": 0, "VC->signature": 0, "VC->ctx": Ptr("ctx"),
+                  "VC->documentHash": Ptr("VCHASH") if ctxkind == "own-hash" else 0, "VC->docAggrLevel": 0,
+                  # a context the caller used for another signature before: the signature verified is still the one passed in
+                  "VC->signature": Ptr("OTHERSIG") if ctxkind == "other-signature" else 0, "VC->ctx": Ptr("ctx"),
                   "VC->extendingAllowed": 1, "VC->userPublication": 0, "VC->userPublicationsFile": 0, "VC->tempData": 0}
         ov = {"KSI_SignatureVerifier_verify": verify, "KSI_VerificationContext_init": init}
         I = Interp(fn, inputs=inputs, call_model=succeed_model(prog, ov), on_unknown="stop", prog=prog)
